@@ -43,6 +43,17 @@ def make_spec(st, idx, tier):
     mp = spec["profile"]["model_parameters"]
     if mp.get("fit_turnout_outlier_model") and "unit" not in spec["profile"]["aggregates"]:
         spec["profile"]["aggregates"].append("unit")
+    # feed fault 'partial row': the value of one requested estimand has not arrived yet for a unit whose other counts
+    # have (vote-count estimands only; the margin estimand needs both parties by definition)
+    if spec["profile"]["pi_method"] != "bootstrap":
+        n = 0
+        for o in spec["ops"]:
+            if o["k"] == "deliver" and st.feed.random() < 0.03:
+                e = spec["profile"]["estimands"][int(st.feed.integers(0, len(spec["profile"]["estimands"])))]
+                o["row"] = dict(o["row"], **{f"results_{e}": None})
+                o["partial_row"] = True
+                n += 1
+        spec["feed_stats"]["partial_rows"] = n
     return spec
 
 
@@ -88,8 +99,12 @@ def check_conservation(chk, world, rec, units, flagged):
                 out.append(chk.v("unit_reporting_flag", f"unit {f}: reporting={r['reporting']} expected {want_rep} (category {want})"))
             for e in est:
                 got = C.fnum(r.get(f"results_{e}"))
-                if got != float(R.counted(u, e)):
-                    out.append(chk.v("unit_counted", f"unit {f}: results_{e}={got} but the feed says {R.counted(u, e)}", estimand=e))
+                want_c = R.counted(u, e)
+                if want_c is None:
+                    if not math.isnan(got):
+                        out.append(chk.v("unit_counted", f"unit {f}: results_{e}={got} but the feed row has no value for it", estimand=e))
+                elif got != float(want_c):
+                    out.append(chk.v("unit_counted", f"unit {f}: results_{e}={got} but the feed says {want_c}", estimand=e))
     for agg in p["aggregates"]:
         if agg == "unit":
             continue
@@ -180,6 +195,8 @@ class Checker(C.BaseChecker):
             st.probes["zero_policy_filled_missing_unit"] += 1
         if flagged:
             st.probes["outlier_model_flagged_units"] += 1
+        if any(any(r.get(c) is None for c in ("results_dem", "results_gop", "results_turnout")) for r in rec.rows):
+            st.probes["feed_row_with_missing_estimand_value"] += 1
         nontrivial = n_nonrep > 0 and (info["n_foreign"] > 0 or len(cats) > 1 or n_partial > 0 or bool(probes))
         sig = (profile_signature(rec.profile), world_signature(ex.world),
                tuple(sorted((c, min(3, n)) for c, n in cats.items())), min(3, n_partial), sorted(set(probes)))
